@@ -17,7 +17,7 @@ What it checks:
   node carries; a unary operator sees a built-in type; a binary operator sees scalars (`STRING * n` counts as a string) and
   carries the type of the checker's table (`/` excepted: it is followed by a `Cast`); string literals hold no NUL;
 * statements: a `DIM` names the slot's declared type, which the table can expand; an assignment goes to a declared location
-  of the type the statement carries and the linter accepts the conversion (`canStoreB` = `Spec.CanStore`); READ targets
+  of the type the statement carries (no condition on the static type of the right-hand side is needed); READ targets
   and FOR counters are scalar variables at their declared type, a FOR counter is not a string; conditions of IF / WHILE / DO
   are numbers; `CASE IS` uses a relational operator, a CASE has at least one item; a missing ELSE part is empty; DATA only
   at the top level, and no DATA item holds a NUL.
@@ -99,13 +99,6 @@ def eWfB (types : List FFields) (slots : List ETy) : RecL.Expr → Bool
        | _, _ => false)
   | .paren e _ => eWfB types slots e
 
-def canStoreB (st tt : ETy) : Bool :=
-  decide (st = tt) ||
-    match tt, Ref.ETy.asTy st with
-    | .sc t, some s => decide (s = .str) == decide (t = .str)
-    | .fix _, some s => decide (s = .str)
-    | _, _ => false
-
 def numTyB : ETy → Bool
   | .sc q => decide (q ≠ .str)
   | _ => false
@@ -142,7 +135,7 @@ def wfB (types : List FFields) (slots : List ETy) : SStmt → Bool
   | .comment => true
   | .seq a b => wfB types slots a && wfB types slots b
   | .dim x t _ => decide (slots[x]? = some t) && (expand types t).isSome
-  | .assign x path t e _ => pathTypedB types slots x path t && eWfB types slots e && canStoreB e.ty t
+  | .assign x path t e _ => pathTypedB types slots x path t && eWfB types slots e
   | .print items _ => itemsWfB types slots items
   | .ifBlock c thn elifs hasElse els _ =>
     eWfB types slots c && numTyB c.ty && wfB types slots thn && wfElifsB types slots elifs && wfB types slots els &&
